@@ -60,6 +60,8 @@ pub struct Recorded {
     pub open_error: Option<String>,
     pub final_content: Content,
     pub attempts: u64,
+    pub prelude_end: usize,
+    pub prelude_attempts: u64,
 }
 
 fn install_env() {
@@ -70,9 +72,19 @@ fn install_env() {
 /// Runs the workload once (optionally with one scripted ambiguous failure)
 /// and records journal positions and outcomes.
 pub async fn record(workload: &[Op], start_idx: Idx, backend: Backend, fault_at: Option<u64>) -> Recorded {
+    record_with_prelude(&[], workload, start_idx, backend, fault_at).await
+}
+
+/// Like `record`, but first runs `prelude` (not part of the enumerated
+/// workload: its ops are acknowledged history; `Recorded::prelude_end` is the
+/// journal length after it, crash points before that are not enumerated).
+/// `fault_at` counts mutation attempts after the prelude.
+pub async fn record_with_prelude(prelude: &[Op], workload: &[Op], start_idx: Idx, backend: Backend, fault_at: Option<u64>) -> Recorded {
     install_env();
     let (cs, ctl) = CtlStore::new();
-    if let Some(i) = fault_at {
+    if prelude.is_empty()
+        && let Some(i) = fault_at
+    {
         ctl.script(i, Answer::ErrAfter);
     }
     let store = wrap(backend, &cs);
@@ -84,10 +96,30 @@ pub async fn record(workload: &[Op], start_idx: Idx, backend: Backend, fault_at:
         open_error: None,
         final_content: Content::new(),
         attempts: 0,
+        prelude_end: 0,
+        prelude_attempts: 0,
     };
     match Fixture::open(store, start_idx).await {
         Ok(mut fx) => {
             rec.created_at = ctl.journal_len();
+            for op in prelude {
+                let start = ctl.journal_len();
+                let att_start = ctl.mutation_attempts();
+                let next_id = fx.coll.max_document_id() + 1;
+                let idx_before = fx.idx;
+                let out = fx.exec_any(op).await;
+                assert!(out.is_ok(), "prelude op {op:?} failed: {}", out.short());
+                rec.ops.push(OpRec { op: op.clone(), out, start, end: ctl.journal_len(), att_start, att_end: ctl.mutation_attempts(), next_id, idx_before });
+            }
+            if !prelude.is_empty() {
+                rec.prelude_end = ctl.journal_len();
+                rec.prelude_attempts = ctl.mutation_attempts();
+            }
+            if !prelude.is_empty()
+                && let Some(i) = fault_at
+            {
+                ctl.script(rec.prelude_attempts + i, Answer::ErrAfter);
+            }
             for op in workload {
                 if matches!(op, Op::CompactBm25) && !fx.idx.body {
                     continue;
@@ -370,6 +402,26 @@ pub async fn check_state(fx: &Fixture, exp: &Expectation) -> (Vec<(String, Strin
         }
     }
     (problems, resolved)
+}
+
+/// Recovery must converge: a second, clean reopen right after recovery (no
+/// write in between) shows exactly the same state.
+pub async fn second_reopen(fx: &mut Fixture, exp: &Expectation, resolved: &DocModel) -> Vec<(String, String)> {
+    let mut problems = Vec::new();
+    let out = fx.exec_any(&Op::Reopen).await;
+    if !out.is_ok() {
+        problems.push(("second-reopen".into(), format!("clean reopen right after recovery failed: {}", out.short())));
+        return problems;
+    }
+    let probe = exp.images.keys().max().copied().unwrap_or(0) + 3;
+    let bad = full_compare(&fx.coll, resolved, fx.idx, probe).await;
+    if !bad.is_empty() {
+        problems.push((
+            "second-reopen-state".into(),
+            format!("a clean reopen right after recovery shows a different state: {}", bad.join("; ")),
+        ));
+    }
+    problems
 }
 
 /// The reopened database accepts and persists new writes; a flushed id is
